@@ -1,13 +1,21 @@
 import TpmProofs.PumpFacts
 import TpmProofs.Props.C10
+import TpmProofs.NoCrash
+import TpmProofs.MsgNoCrash
+import TpmModel.Generated.Cmd
+import TpmProofs.MsgPump
+import TpmModel.Generated.Types
 /-!
 # C06 — decoding arbitrary bytes terminates with a documented outcome
 
 Termination: every function of the model is total (structural recursion over the layout; the two loops
 carry fuel bounded by the input length), so `marshalRun` is a total function: for every input it returns
 a `Run` whose outcome is one of the constructors of `Outcome`.  Internal Python errors are the explicit
-`Outcome.crash` constructor; that they are unreachable for the current tables is *monitored* on the
-implementation (and the model corresponds on every input tried), not yet proved.
+`Outcome.crash` constructor.  For every non-union layout of /repo they are unreachable, on every input
+(`c06_no_crash_type`, from `decode_nc` in TpmProofs/NoCrash.lean and the kernel-decided side conditions `c06_tables`);
+for whole commands it is unreachable too (`c06_no_crash_command`), and for responses and streams the only internal error
+left is the `assert` comparing the caller's parameter-encryption flag with the response's session attributes
+(`c06_response`, `c06_stream`, from TpmProofs/MsgNoCrash.lean) — the known finding.
 -/
 namespace C06
 
@@ -31,5 +39,112 @@ theorem c06_pump_total (abort : Bool) (tb : MsgTables) (top : Top) (x : List Byt
   | depleted => exact Or.inr (Or.inr (Or.inr (Or.inl rfl)))
   | superfluous r v => exact Or.inr (Or.inr (Or.inr (Or.inr (Or.inl ⟨r, v, rfl⟩))))
   | crash c s => exact Or.inr (Or.inr (Or.inr (Or.inr (Or.inr ⟨c, s, rfl⟩))))
+
+def _root_.Ty.isUnion : Ty → Bool
+  | .union _ _ => true
+  | _ => false
+
+/-- (tables) every non-union layout of /repo meets the static side conditions of crash-freedom: counts are read from an
+integer field, selectors name an earlier integer field, unions decoded without a selector have a fallback member, list
+members have a declared size, size fields are unsigned and at least one byte wide -/
+theorem c06_tables : (Generated.allTypes.filter fun t => !t.isUnion).all (fun t => t.wf && t.total && t.okNoSel) = true := by
+  decide +kernel
+
+/-- a run whose walker result is no crash does not end in `crash` -/
+theorem outcome_no_crash (tb : MsgTables) (top : Top) (hs : top.isStream = false) (x : List Byte)
+    (h : NC (runWalker true tb top x)) : ∀ c m, (marshalRun true tb top x).outcome ≠ .crash c m := by
+  intro c m
+  rw [outcome_nonstream tb top hs x]
+  cases hw : runWalker true tb top x with
+  | ok vs =>
+    obtain ⟨v, s⟩ := vs
+    show pumpOutcome x s.pos (.ok v) ≠ _
+    unfold pumpOutcome
+    simp only []
+    by_cases hlt : s.pos < x.length
+    · rw [if_pos hlt]; intro hh; cases hh
+    · rw [if_neg hlt]; intro hh; cases hh
+  | error es =>
+    obtain ⟨e, s⟩ := es
+    have hne := h
+    rw [hw] at hne
+    show pumpOutcome x s.pos (.error e) ≠ _
+    cases e with
+    | crash c' m' => exact absurd rfl (hne c' m' s)
+    | depleted => simp [pumpOutcome]
+    | exceeded => simp [pumpOutcome]
+    | anticipated => simp [pumpOutcome]
+    | subceeded => simp [pumpOutcome]
+    | value => simp [pumpOutcome]
+
+/-- **C06 for structures**: for every non-union layout of /repo and EVERY byte string, strict decoding ends with the
+object, with one of the documented errors (a constraint violation, input depleted, input superfluous) — never with an
+internal error -/
+theorem c06_no_crash_type (t : Ty) (ht : t ∈ Generated.allTypes) (hu : t.isUnion = false) (tb : MsgTables) (x : List Byte) :
+    ∀ c m, (marshalRun true tb (.ty t) x).outcome ≠ .crash c m := by
+  have hmem : t ∈ Generated.allTypes.filter fun t => !t.isUnion := by simp [List.mem_filter, ht, hu]
+  have := List.all_eq_true.mp c06_tables t hmem
+  simp only [Bool.and_eq_true] at this
+  obtain ⟨⟨hwf, htot⟩, hok⟩ := this
+  exact outcome_no_crash tb (.ty t) rfl x
+    (by simpa [runWalker] using decode_nc t hwf htot rootPath none (initSt x) (fun _ => hok) (by intro c hc; cases hc))
+
+/-- (tables) the message tables of /repo meet the static side conditions: unsigned size fields, session layouts with the
+attribute bits `is_parameter_encryption` looks up, every handle / parameter area (also in its encrypted variant)
+crash-free, every command code has response layouts -/
+theorem c06_msg_tables : Generated.msgTables.total = true ∧ Generated.msgTables.paired = true := by decide +kernel
+
+/-- a crash outcome can only come from a crash of the walker -/
+theorem crash_from_walker (tb : MsgTables) (top : Top) (x : List Byte) (c m : String)
+    (h : (marshalRun true tb top x).outcome = .crash c m) : ∃ s, runWalker true tb top x = .error (.crash c m, s) := by
+  unfold marshalRun pump at h
+  simp only [] at h
+  split at h
+  · cases h
+  · cases hw : runWalker true tb top x with
+    | ok vs =>
+      obtain ⟨v, s⟩ := vs
+      rw [hw] at h
+      have : pumpOutcome x s.pos (.ok v) = .crash c m := h
+      unfold pumpOutcome at this
+      simp only [] at this
+      split at this <;> cases this
+    | error es =>
+      obtain ⟨e, s⟩ := es
+      rw [hw] at h
+      have h' : pumpOutcome x s.pos (.error e) = .crash c m := h
+      cases e with
+      | crash c' m' =>
+        simp only [pumpOutcome, Outcome.crash.injEq] at h'
+        obtain ⟨rfl, rfl⟩ := h'
+        exact ⟨s, rfl⟩
+      | depleted => simp [pumpOutcome] at h'
+      | exceeded => simp [pumpOutcome] at h'
+      | anticipated => simp [pumpOutcome] at h'
+      | subceeded => simp [pumpOutcome] at h'
+      | value => simp [pumpOutcome] at h'
+
+/-- **C06 for commands**: every byte string decoded as a command ends with the object or a documented error -/
+theorem c06_no_crash_command (x : List Byte) : ∀ c m, (marshalRun true Generated.msgTables .command x).outcome ≠ .crash c m := by
+  intro c m h
+  obtain ⟨s, hs⟩ := crash_from_walker _ _ _ _ _ h
+  exact decodeCommand_nc Generated.msgTables c06_msg_tables.1 rootPath (initSt x) c m s (by simpa [runWalker] using hs)
+
+/-- **C06 for responses**, every command code of /repo and either flag: the only internal error is the known one -/
+theorem c06_response (cc : Int) (hcc : cc ∈ Generated.msgTables.cmdHandles.map (·.1)) (enc : Bool) (x : List Byte) (c m : String)
+    (h : (marshalRun true Generated.msgTables (.response (some cc) enc) x).outcome = .crash c m) : isMismatch c m := by
+  obtain ⟨s, hs⟩ := crash_from_walker _ _ _ _ _ h
+  obtain ⟨⟨k, t⟩, hmem, rfl⟩ := List.mem_map.mp hcc
+  have hpair := List.all_eq_true.mp c06_msg_tables.2 _ hmem
+  simp only [Bool.and_eq_true] at hpair
+  exact decodeResponse_ncx Generated.msgTables c06_msg_tables.1 (some k) enc rootPath (initSt x) (by simpa using hpair)
+    c m s (by simpa [runWalker] using hs)
+
+/-- **C06 for streams**: likewise -/
+theorem c06_stream (x : List Byte) (c m : String)
+    (h : (marshalRun true Generated.msgTables .stream x).outcome = .crash c m) : isMismatch c m := by
+  obtain ⟨s, hs⟩ := crash_from_walker _ _ _ _ _ h
+  exact decodeStream_ncx Generated.msgTables c06_msg_tables.1 c06_msg_tables.2 rootPath (x.length + 1) (initSt x)
+    (by simp [initSt]) c m s (by simpa [runWalker] using hs)
 
 end C06
